@@ -1033,3 +1033,13 @@ add("C11", "worker-raises-recursion-limit", LT,
     [("            with file_context.timer.measure(\"transform\"):\n                for transformer in self.transformers:", "            with file_context.timer.measure(\"transform\"):\n                sys.setrecursionlimit(5000)\n                for transformer in self.transformers:"),
      ("import libcst as cst\n", "import sys\n\nimport libcst as cst\n")],
     "fire", "R-WORKER-ISOLATION", "apply")
+CSE = "core_codemods/combine_startswith_endswith.py"
+add("C08", "fold-receiver-may-be-attribute", CSE,
+    [("            func=m.Attribute(value=m.Name(), attr=m.Name(func_name)),", "            func=m.Attribute(value=m.Name() | m.Attribute(), attr=m.Name(func_name)),")],
+    "fire", "R-SAME-RECEIVER", "check_calls_same_instance")
+add("C08", "fold-receiver-compared-by-last-name", CSE,
+    [("        return left_call.func.value.value == right_call.func.value.value", "        return left_call.func.attr.value == right_call.func.attr.value")],
+    "fire", "R-SAME-RECEIVER", "check_calls_same_instance")
+add("C08", "benign-fold-receiver-deep-equals", CSE,
+    [("        return left_call.func.value.value == right_call.func.value.value", "        return left_call.func.value.deep_equals(right_call.func.value)")],
+    "silent")
